@@ -94,6 +94,27 @@ func c02Reference(mode string, rest []byte) tailObs {
 }
 
 func evalC02(c C02Case) *h.Finding {
+	f, _ := evalC02o(c)
+	return f
+}
+
+// evalC02o also returns a short description of what was observed (for the outcome histogram of the evidence).
+func evalC02o(c C02Case) (*h.Finding, string) {
+	f, o, rest := evalC02x(c)
+	if f != nil || o == nil {
+		return f, ""
+	}
+	out := "data-reply=?"
+	if len(o.Replies) > 5 {
+		out = fmt.Sprintf("data-reply=%d", o.Replies[5].Code)
+	}
+	if len(rest) > len(c02Follow) {
+		out += " end-marker-inside-the-message"
+	}
+	return nil, fmt.Sprintf("%s replies-behind-it=%d closed=%t", out, len(o.Replies)-6, o.Closed)
+}
+
+func evalC02x(c C02Case) (*h.Finding, *h.Obs, []byte) {
 	cfg, be := modeConfig(c.Mode)
 	cfg.MaxMessageBytes = c.Limit
 	cfg.MaxLineLength = c.LineMax
@@ -113,7 +134,7 @@ func evalC02(c C02Case) *h.Finding {
 	stream = append(stream, c02Follow...)
 	_, rest, complete := ref.Unstuff(stream)
 	if !complete {
-		return h.F("harness-error", "no end marker")
+		return h.F("harness-error", "no end marker"), nil, nil
 	}
 	full := append([]byte(pro), stream...)
 	var segs [][]byte
@@ -129,46 +150,46 @@ func evalC02(c C02Case) *h.Finding {
 	o := h.RunS(cfg, be, segs, h.TermEOF)
 	desc := fmt.Sprintf("mode=%s msg=%q readmax=%d reject=%t limit=%d cuts=%v", c.Mode, c.Msg, c.ReadMax, c.Reject, c.Limit, c.Cuts)
 	if f := o.Sanity("c02", desc); f != nil {
-		return f
+		return f, nil, nil
 	}
 	// lines after an early end marker are executed as (unknown) commands, and the server echoes them,
 	// control octets included: the reply text is not C02's subject, so the wire is parsed leniently
 	o.Replies, o.ParseErr = ref.ParseRepliesLenient(o.Wire)
 	if o.ParseErr != nil {
-		return h.F("c02-bad-wire", "%s: %v", desc, o.ParseErr)
+		return h.F("c02-bad-wire", "%s: %v", desc, o.ParseErr), nil, nil
 	}
 	baitInRest := bytes.Contains(rest, []byte("bait@"))
 	if !baitInRest {
 		for _, e := range o.Trace {
 			if strings.Contains(e.Arg, "bait@") {
-				return h.F("c02-bait-executed", "%s: message content was executed as a command: backend saw %s(%s); replies %s", desc, e.Kind, e.Arg, o.Codes())
+				return h.F("c02-bait-executed", "%s: message content was executed as a command: backend saw %s(%s); replies %s", desc, e.Kind, e.Arg, o.Codes()), nil, nil
 			}
 		}
 	}
 	got, sawData := tailOf(o, 6)
 	if !sawData {
-		return h.F("c02-no-data", "%s: no Data call; replies %s", desc, o.Codes())
+		return h.F("c02-no-data", "%s: no Data call; replies %s", desc, o.Codes()), nil, nil
 	}
 	if len(o.Replies) < 6 || o.Replies[4].Code != 354 {
-		return h.F("c02-prefix", "%s: unexpected replies before the message: %s", desc, o.Codes())
+		return h.F("c02-prefix", "%s: unexpected replies before the message: %s", desc, o.Codes()), nil, nil
 	}
 	// when a segment ends exactly behind the first true end marker, the answer to DATA is due before the server takes a
 	// single octet of the next segment: the end marker, and nothing later, ends the message
 	if end := len(full) - len(rest); len(c.Cuts) == 1 && len(pro)+c.Cuts[0] == end && len(o.ReplyAt) > 5 && o.ReplyAt[5] > end {
-		return h.F("c02-end-marker-did-not-end-the-message", "%s: the server answered DATA (%s) only after it had taken %d octets of input; the end marker ends at octet %d", desc, o.Replies[5].String(), o.ReplyAt[5], end)
+		return h.F("c02-end-marker-did-not-end-the-message", "%s: the server answered DATA (%s) only after it had taken %d octets of input; the end marker ends at octet %d", desc, o.Replies[5].String(), o.ReplyAt[5], end), nil, nil
 	}
 	want := c02Reference(c.Mode, rest)
 	if strings.Join(got.replies, "|") != strings.Join(want.replies, "|") {
 		return h.F("c02-desync-replies", "%s: after the final DATA reply (%s) the server answered [%s]; the lines after the end marker %q call for [%s]",
-			desc, o.Replies[5].String(), strings.Join(got.replies, " | "), rest, strings.Join(want.replies, " | "))
+			desc, o.Replies[5].String(), strings.Join(got.replies, " | "), rest, strings.Join(want.replies, " | ")), nil, nil
 	}
 	if strings.Join(got.calls, "|") != strings.Join(want.calls, "|") {
-		return h.F("c02-desync-calls", "%s: backend calls after the message: %v, want %v", desc, got.calls, want.calls)
+		return h.F("c02-desync-calls", "%s: backend calls after the message: %v, want %v", desc, got.calls, want.calls), nil, nil
 	}
 	if got.closed != want.closed {
-		return h.F("c02-desync-closed", "%s: closed=%v want %v", desc, got.closed, want.closed)
+		return h.F("c02-desync-closed", "%s: closed=%v want %v", desc, got.closed, want.closed), nil, nil
 	}
-	return nil
+	return nil, o, rest
 }
 
 func init() { h.RegisterReplayer("c02", evalC02) }
@@ -488,7 +509,7 @@ func C02(tier string) int {
 								c.LineMax = 8192 // everything in one segment once more, with a line limit above the buffer size
 							}
 							c.Slow = ci > len(cutsList)
-							f := evalC02(c)
+							f, what := evalC02o(c)
 							run.Eval(nontrivial)
 							if f != nil {
 								c.Show = fmt.Sprintf("%q", msg)
@@ -496,7 +517,7 @@ func C02(tier string) int {
 								run.Violate("c02", cc, f, func() *h.Finding { return evalC02(cc) })
 								out["violation:"+f.Sig]++
 							} else {
-								out["ok"]++
+								out["ok: "+what]++
 							}
 						}
 					}
